@@ -43,13 +43,63 @@ def strip_index(t):
     return t, None
 
 
+PRED_VARIANT = {"is_pending": "Pending", "is_ready": "Ready", "is_none": "None"}
+
+
+class DiscrTest:
+    """A `match` / `matches!` on a PollState place, presented like a predicate call site:
+    outcome_edges(test, True/False) are the edges on which the place is / is not the variant."""
+
+    def __init__(self, bi, entry, variant):
+        self.block = entry["block"]
+        self._subject = entry["subject"]
+        self.where = bi.describe(entry["block"])
+        te, fe = [], []
+        for lab, tb in entry["edges"].items():
+            if tb is None:
+                continue
+            if lab == variant:
+                te.append((self.block, tb))
+            elif lab == "otherwise" and variant in entry.get("otherwise_names", []):
+                # the variant hides in the default arm together with others: neither edge set is exact
+                te.append((self.block, tb)) if len(entry.get("otherwise_names", [])) == 1 else None
+                if len(entry.get("otherwise_names", [])) != 1:
+                    fe = None
+                    break
+            else:
+                fe.append((self.block, tb))
+        self.pseudo_edges = {True: te, False: fe or []}
+        self.exact = fe is not None
+
+    def arg(self, i):
+        return self._subject if i == 0 else None
+
+    @property
+    def callee(self):
+        return None
+
+
 def state_tests(bi, name):
-    """PollState::{is_pending,is_ready,is_none} sites -> list of (site, idx_term, base_term)."""
+    """Tests of a slot state: PollState::{is_pending,is_ready,is_none} call sites and direct
+    discriminant matches on a PollState place -> list of (test, idx_term, base_term)."""
     out = []
     for s in bi.sites_named(name, ("PollState",)):
         a = s.arg(0)
         base, idx = strip_index(a)
         out.append((s, idx, base))
+    variant = PRED_VARIANT.get(name)
+    if variant:
+        for e in bi.switches:
+            if e["kind"] != "discr":
+                continue
+            names = set(l for l in e["edges"] if l != "otherwise") | set(e.get("otherwise_names", []))
+            if names != {"None", "Pending", "Ready"}:
+                continue
+            t = DiscrTest(bi, e, variant)
+            if not t.exact:
+                continue
+            base, idx = strip_index(e["subject"])
+            out.append((t, idx, base))
     return out
 
 
